@@ -28,10 +28,12 @@ type c04Desc struct {
 	Kind   string      `json:"kind"`        // script | long | json
 	Frames []string    `json:"frames,omitempty"`
 	Cuts   string      `json:"cuts"`
+	// TailLen > 0: the transport hands over the last TailLen bytes before the fault in ONE Read call of their own
+	TailLen int `json:"tail_bytes_in_one_transport_read,omitempty"`
 }
 
-var c04Terms = []string{"eof", "unexpected-eof", "error", "reset"}
-var c04Readers = []string{"Read", "Reader/1", "Reader/3", "Reader/64", "Reader/4096", "NetConn/5", "NetConn/4096", "wsjson"}
+var c04Terms = []string{"eof", "unexpected-eof", "error", "reset", "error+data", "eof+data"}
+var c04Readers = []string{"Read", "Reader/1", "Reader/3", "Reader/64", "Reader/4096", "NetConn/5", "NetConn/4096", "wsjson", "Reader/5+failing-writes", "Read+failing-writes"}
 
 func init() {
 	fw.Register(&fw.Prop{
@@ -83,12 +85,62 @@ func c04Gen(tier string, seed int64) []fw.Case {
 			}
 		}
 	}
+	// a complete message whose last bytes arrive in one large transport read that also reports the failure
+	for rep := 0; rep < tierPick(tier, 1, 6); rep++ {
+		for _, role := range bothRoles {
+			for _, params := range []wire.Params{{}, allParams[1+rep%4]} {
+				for _, term := range []string{"error+data", "eof+data", "reset+data", "unexpected-eof+data"} {
+					for _, rd := range []string{"Read", "Reader/4096", "Reader/8192", "Reader/65536", "NetConn/16384"} {
+						for _, tail := range []int{4096, 4097, 5000, 8192, 12288} {
+							if params.Deflate && tail%4096 != 0 {
+								continue
+							}
+							d := c04Desc{Role: role, Params: params, Seed: rng.U64(), Term: term, Reader: rd, Kind: "tail", Cuts: "end of stream", TailLen: tail}
+							dd := d
+							cases = append(cases, fw.Case{Name: fmt.Sprintf("%s/%s/tail-%d/%s/%s", d.Role, paramsKey(d.Params), tail, d.Term, d.Reader), Desc: dd, Run: func(r *fw.R) { c04Run(r, dd) }})
+						}
+					}
+				}
+			}
+		}
+	}
 	return cases
+}
+
+// c04TailScript: a small message, then a message whose final frame ends with TailLen bytes that the transport
+// delivers in a Read call of their own (for a compressed message the final frame carries exactly those bytes,
+// so that the decompressor's 4096 byte refills line up with them).
+func c04TailScript(d c04Desc) *Script {
+	rng := fw.NewRand(d.Seed)
+	s := &Script{Role: d.Role, Params: d.Params, NMsgs: 2}
+	s.add(wire.Data(wire.OpText, true, []byte("a complete small message")), "msg0")
+	if d.Params.Deflate {
+		def := &wire.Deflater{Takeover: d.Params.SenderTakeover(d.Role == RoleServer)}
+		payload := rng.Bytes(d.TailLen + 3000 + rng.Intn(3000))
+		z := def.Message(payload, 1, wire.EndSync)
+		f0 := wire.Data(wire.OpBinary, false, z[:len(z)-d.TailLen])
+		f0.Rsv1 = true
+		s.add(f0, "msg1 compressed, first fragment")
+		s.add(wire.Data(wire.OpCont, true, z[len(z)-d.TailLen:]), "msg1 final fragment = tail")
+	} else {
+		x := []int{0, 10, 700}[rng.Intn(3)]
+		payload := rng.Bytes(x + d.TailLen)
+		if rng.Bool() {
+			s.add(wire.Data(wire.OpBinary, false, rng.Bytes(100)), "msg1 first fragment")
+			s.add(wire.Data(wire.OpCont, true, payload), "msg1 final fragment")
+		} else {
+			s.add(wire.Data(wire.OpBinary, true, payload), "msg1")
+		}
+	}
+	s.finish(rng)
+	return s
 }
 
 func c04Script(d c04Desc) *Script {
 	rng := fw.NewRand(d.Seed)
 	switch d.Kind {
+	case "tail":
+		return c04TailScript(d)
 	case "json":
 		// text messages holding JSON numbers, fragmented so that prefixes are valid JSON
 		s := &Script{Role: d.Role, Params: d.Params}
@@ -128,9 +180,10 @@ func c04Script(d c04Desc) *Script {
 		s.finish(rng)
 		return s
 	case "long":
-		return genScript(rng, d.Role, d.Params, scriptOpts{MinMsgs: 2, MaxMsgs: 4, MaxSize: 70000, Big: true, Controls: true})
+		return genScript(rng, d.Role, d.Params, scriptOpts{MinMsgs: 2, MaxMsgs: 4, MaxSize: 70000, Big: true, Controls: !strings.HasSuffix(d.Reader, "+failing-writes")})
 	}
-	return genScript(rng, d.Role, d.Params, scriptOpts{MinMsgs: 2, MaxMsgs: 4, MaxSize: 200, Controls: true})
+	// (with failing writes no Ping is sent: its Pong could not be written, which legitimately fails the read)
+	return genScript(rng, d.Role, d.Params, scriptOpts{MinMsgs: 2, MaxMsgs: 4, MaxSize: 200, Controls: !strings.HasSuffix(d.Reader, "+failing-writes")})
 }
 
 func c04Run(r *fw.R, d c04Desc) {
@@ -155,7 +208,9 @@ func c04Run(r *fw.R, d c04Desc) {
 
 	// cut offsets
 	var cuts []int
-	if d.Kind == "long" {
+	if d.Kind == "tail" {
+		cuts = []int{len(stream)}
+	} else if d.Kind == "long" {
 		seen := map[int]bool{}
 		addc := func(k int) {
 			if k >= 0 && k <= len(stream) && !seen[k] {
@@ -177,7 +232,7 @@ func c04Run(r *fw.R, d c04Desc) {
 		}
 	}
 	var fk xport.FaultKind
-	switch d.Term {
+	switch strings.TrimSuffix(d.Term, "+data") {
 	case "eof":
 		fk = xport.FaultEOF
 	case "unexpected-eof":
@@ -196,7 +251,13 @@ func c04Run(r *fw.R, d c04Desc) {
 }
 
 func c04Cut(r *fw.R, d c04Desc, s *Script, stream []byte, k int, fk xport.FaultKind) {
-	plan := xport.Plan{Fault: xport.Fault{Kind: fk, After: int64(k)}, NoTap: true}
+	// "+data": the transport reports the failure in the same Read call that delivers the last bytes
+	plan := xport.Plan{Fault: xport.Fault{Kind: fk, After: int64(k), WithData: strings.HasSuffix(d.Term, "+data")}, NoTap: true}
+	failingWrites := strings.HasSuffix(d.Reader, "+failing-writes")
+	if d.TailLen > 0 && k >= d.TailLen {
+		plan.ReadCuts = []int{k - d.TailLen, d.TailLen}
+		r.Count("tails_delivered_together_with_the_failure", 1)
+	}
 	c, _, peerEnd, err := libConn(d.Role, d.Params, 0, xport.Plan{}, plan)
 	if err != nil {
 		r.Violate("C04/attach-failed", err.Error(), "")
@@ -205,9 +266,15 @@ func c04Cut(r *fw.R, d c04Desc, s *Script, stream []byte, k int, fk xport.FaultK
 	defer c.CloseNow()
 	const limit = 1 << 22
 	c.SetReadLimit(limit)
-	go io.Copy(io.Discard, peerEnd) // drain pongs
+	if !failingWrites {
+		go io.Copy(io.Discard, peerEnd) // drain pongs
+	}
 	defer peerEnd.Close()
 	peerEnd.Write(stream)
+	if failingWrites {
+		// the peer is gone: what it sent can still be read, every local write fails
+		peerEnd.Close()
+	}
 	if k == len(stream) {
 		// the fault sits exactly at the end of the stream
 		_ = k
@@ -320,11 +387,28 @@ func c04Cut(r *fw.R, d c04Desc, s *Script, stream []byte, k int, fk xport.FaultK
 		}
 	default:
 		m := readMode{Kind: "Read"}
+		var between func()
 		if strings.HasPrefix(d.Reader, "Reader/") {
 			m.Kind = "Reader"
-			fmt.Sscanf(d.Reader, "Reader/%d", &m.Buf)
+			fmt.Sscanf(strings.TrimSuffix(d.Reader, "+failing-writes"), "Reader/%d", &m.Buf)
 		}
-		out := readLoop(ctx, c, m, 1)
+		if failingWrites {
+			// the application writes between its reads; the writes fail (with a context that stays alive),
+			// which must not take away what was received before the transport broke
+			wrote := false
+			between = func() {
+				// once: a failed Write may leave the message lock taken, so that a second one would wait for its
+				// context, and a context that ends after a failed write closes the connection
+				if wrote {
+					return
+				}
+				wrote = true
+				if err := c.Write(ctx, websocket.MessageText, []byte("written to a peer that is gone")); err != nil {
+					r.Count("writes_failed_between_reads", 1)
+				}
+			}
+		}
+		out := readLoopBetween(ctx, c, m, 1, between)
 		compareWithReference(r, "C04", ctxKey, out, ref, effects, term, witness)
 		if out.Err != nil && errors.Is(out.Err, context.DeadlineExceeded) {
 			_ = out
